@@ -628,6 +628,24 @@ def gen_daemon_cases(ctx):
         if rng.random() < 0.15:
             c["lock"] = {"type": "reg", "uid": e, "gid": 0, "mode": rng.choice((0o200, 0o600))}
         add("random", c)
+    # --- two of the five names in ONE directory (round 8: a directory found acceptable for one name - the log file's rule
+    #     tolerates group-writable directories - was remembered and not examined again for another name kept in it):
+    #     every ordered pair of sites, the shared directory with each kind of attribute, daemonized and in the foreground
+    for a in SITES:
+        for b in SITES:
+            if a == b:
+                continue
+            for vi, attr in enumerate(((0, OGID, 0o775), (0, 0, 0o777), (0, 0, 0o1777), (FOREIGN, 0, 0o755), (0, 0, 0o755))):
+                for fg in (False, True):
+                    if not T and (vi + SITES.index(a) + SITES.index(b) + fg) % 2 and attr[2] != 0o775:
+                        continue
+                    c = base_case(fg=fg, euid=0, depth=2)
+                    ch = list(c["dirs"][b])
+                    ch[-1] = attr
+                    c["dirs"][b] = ch
+                    c["dirs"][a] = list(ch)
+                    c["share"] = {a: b}
+                    add("shared-dir", c)
     return cases
 
 
@@ -847,7 +865,10 @@ def run_daemon_case(exe, top, idx, case):
         os.mkdir(R, 0o755)
         os.chmod(R, 0o755)
         paths, leaf = {}, {}
+        share = case.get("share") or {}
         for s in SITES:
+            if s in share:
+                continue          # kept in another site's directory (below)
             d = R
             made = []
             for i, (u, g, m) in enumerate(case["dirs"][s]):
@@ -859,6 +880,9 @@ def run_daemon_case(exe, top, idx, case):
                 os.chmod(dd, m)
             leaf[s] = d
             paths[s] = os.path.join(d, s)
+        for s, other in share.items():
+            leaf[s] = leaf[other]
+            paths[s] = os.path.join(leaf[other], s)
         paths["lock"] = paths["sock"] + ".lock"
         make_file(paths["key"], case["key"], os.urandom(32))
         for s in PRIOR_SITES:
